@@ -662,7 +662,23 @@ impl<'de, R: Read<'de>> Parser<R> {
                 }
             }
         };
+        // Whatever character a symbol starts with, a trailing colon makes it a
+        // keyword when that syntax is enabled.
+        if let Token::Symbol(name) = &token {
+            if let Some(keyword) = self.postfix_keyword_name(name) {
+                return Ok(Token::Keyword(keyword.into()));
+            }
+        }
         Ok(token)
+    }
+
+    // Returns the keyword name if `name` is a keyword in postfix notation.
+    fn postfix_keyword_name<'s>(&self, name: &'s str) -> Option<&'s str> {
+        if self.options.keyword_syntax(KeywordSyntax::ColonPostfix) && name.len() > 1 {
+            name.strip_suffix(':')
+        } else {
+            None
+        }
     }
 
     /// Parse an S-expression, returning `None` on end-of-input.
@@ -962,7 +978,11 @@ impl<'de, R: Read<'de>> Parser<R> {
                                 pair.set_cdr(Value::from((Value::Nil, Value::Null)));
                                 pair = pair.cdr_mut().as_cons_mut().unwrap();
                             }
-                            pair.set_car(Value::symbol(self.parse_symbol_suffix(".")?));
+                            let name = self.parse_symbol_suffix(".")?;
+                            pair.set_car(match self.postfix_keyword_name(&name) {
+                                Some(keyword) => Value::keyword(keyword),
+                                None => Value::symbol(name),
+                            });
                             have_value = true;
                         }
                     }
@@ -1027,7 +1047,11 @@ impl<'de, R: Read<'de>> Parser<R> {
                                 pair = pair.cdr_mut().as_cons_mut().unwrap();
                                 meta = meta[1].cons_mut().unwrap();
                             }
-                            pair.set_car(Value::symbol(self.parse_symbol_suffix(".")?));
+                            let name = self.parse_symbol_suffix(".")?;
+                            pair.set_car(match self.postfix_keyword_name(&name) {
+                                Some(keyword) => Value::keyword(keyword),
+                                None => Value::symbol(name),
+                            });
                             meta[0] = SpanInfo::Prim(Span::new(start, self.read.position()));
                             have_value = true;
                         }
